@@ -470,8 +470,11 @@ static void c04_case(uint64_t idx)
         } else if (op <= 4) {
             int null = !vh_below(&r, 8);
             tlen = vh_below(&r, 2) ? bb : 1 + vh_below(&r, bb);
+            if (!null && !tweak_null && !vh_below(&r, 6)) { tlen = bb; VH_COUNT("tweak_set_to_its_current_value_again", 1); }    /* the current (zero-padded) tweak once more, full length */
+            else {
             memset(tweak, 0, 16);
             if (!null) { uint8_t tb[16]; vh_fill_interesting(&r, tb, tlen); if (vh_below(&r, 6) == 0 && tlen) memset(tb, 0, tlen); memcpy(tweak, tb, tlen); }
+            }
             tweak_null = null;
             snprintf(k_, sizeof(k_), "C04:skinny%u:%s", bb * 8, null ? "set_tweak(null)" : "set_tweak"); vh_set_crash_key(k_);
             {
